@@ -216,7 +216,7 @@ func handleLine(cur **Contract, out *[]*Contract, pkgPath, text, line string) er
 	if i := strings.IndexAny(text, " \t"); i >= 0 {
 		kw, rest = text[:i], strings.TrimSpace(text[i+1:])
 	}
-	if kw == "spec" || kw == "ghost" || kw == "frame" || kw == "owned" {
+	if kw == "spec" || kw == "ghost" || kw == "ghostvar" || kw == "frame" || kw == "owned" {
 		return nil
 	}
 	if kw == "copy" || kw == "lanes8" || kw == "readonly" || kw == "storesvia" || kw == "unrolled" {
